@@ -139,6 +139,7 @@ type vSub struct {
 }
 
 type vHarness struct {
+	lastBuilt *vaa.VAA
 	r        *rand.Rand
 	w        *bufio.Writer
 	n        int
@@ -320,6 +321,26 @@ func (h *vHarness) mkVAAn(e vEmitter, plen, nsig int) []byte {
 	if err != nil {
 		panic(err)
 	}
+	h.lastBuilt = v
+	return b
+}
+
+// resign: the same message (same body) carrying another signature list - what the next guardian set, or another quorum
+// subset of the same set, produces for a message that was published before
+func (h *vHarness) resign(v *vaa.VAA) []byte {
+	r := h.r
+	w := *v
+	w.GuardianSetIndex = v.GuardianSetIndex + uint32(r.Intn(2))
+	w.Signatures = nil
+	for i, n := 0, 1+r.Intn(4); i < n; i++ {
+		sg := &vaa.Signature{Index: uint8(i)}
+		r.Read(sg.Signature[:])
+		w.Signatures = append(w.Signatures, sg)
+	}
+	b, err := w.Marshal()
+	if err != nil {
+		panic(err)
+	}
 	return b
 }
 
@@ -351,10 +372,11 @@ func (h *vHarness) mkRequest(pool []vEmitter, kind int) (*spyv1.SubscribeSignedV
 			e := pick()
 			add(uint32(e.chain), hx(e))
 		}
-	case 3: // the same filter twice
+	case 3: // the same filter two to four times (one copy per matching filter goes through the one-slot channel)
 		e := pick()
-		add(uint32(e.chain), hx(e))
-		add(uint32(e.chain), hx(e))
+		for i, k := 0, 2+r.Intn(3); i < k; i++ {
+			add(uint32(e.chain), hx(e))
+		}
 	case 4: // right address on another chain / right chain with another address: must not match
 		e, o := pick(), pick()
 		add(uint32(e.chain)+1, hx(e))
@@ -443,10 +465,13 @@ func (h *vHarness) deliverySequence(scale int) {
 		}
 		return l
 	}
+	var prev *vaa.VAA
+	var prevBytes []byte
 	publish := func() {
 		var b []byte
 		dec := "err"
 		ep := 0
+		em := "-" // the emitter of a VAA the harness BUILT (Marshal of a value with a non-empty payload and at most 255 signatures)
 		switch r.Intn(8) {
 		case 1: // what Marshal writes for a signed VAA with an EMPTY payload (Unmarshal rejects it; guardians do sign such messages)
 			b = h.mkVAAn(pool[r.Intn(len(pool))], 0, r.Intn(3))
@@ -465,13 +490,29 @@ func (h *vHarness) deliverySequence(scale int) {
 			default:
 				b = []byte{}
 			}
+		case 2: // a message that was published before, again: the identical bytes, or the same body with another signature list
+			if prev != nil && prevBytes != nil {
+				if r.Intn(2) == 0 {
+					b = prevBytes
+				} else {
+					b = h.resign(prev)
+				}
+				em = fmt.Sprintf("%d:%s", uint16(prev.EmitterChain), hex.EncodeToString(prev.EmitterAddress[:]))
+				break
+			}
+			fallthrough
 		default:
 			e := pool[r.Intn(len(pool))]
 			if r.Intn(6) == 0 { // an emitter nobody filters for
 				r.Read(e.addr[:])
 			}
-			b = h.mkVAA(e)
-			dec = fmt.Sprintf("%d:%s", e.chain, hex.EncodeToString(e.addr[:]))
+			if r.Intn(5) == 0 { // signed by a large guardian set: 19 .. 40 signatures (up to 255 is a VAA)
+				b = h.mkVAAn(e, 1+r.Intn(40), []int{19, 20, 21, 40, 255}[r.Intn(5)])
+			} else {
+				b = h.mkVAA(e)
+			}
+			prev, prevBytes = h.lastBuilt, b
+			em = fmt.Sprintf("%d:%s", e.chain, hex.EncodeToString(e.addr[:]))
 		}
 		if v, err := vaa.Unmarshal(b); err == nil { // the oracle is the decoder itself
 			dec = fmt.Sprintf("%d:%s", uint16(v.EmitterChain), hex.EncodeToString(v.EmitterAddress[:]))
@@ -529,7 +570,7 @@ func (h *vHarness) deliverySequence(scale int) {
 		if len(parts) > 0 {
 			recv = strings.Join(parts, ";")
 		}
-		h.emit("spypub %s len=%d dec=%s ep=%d res=%s recv=%s\n", cid, len(b), dec, ep, res, recv)
+		h.emit("spypub %s len=%d dec=%s em=%s ep=%d res=%s recv=%s\n", cid, len(b), dec, em, ep, res, recv)
 	}
 	leave := func() {
 		l := live()
@@ -798,10 +839,16 @@ func (h *vHarness) stallScenario(cid, variant string, filtered bool) {
 	close(a.stream.gate)
 	stop := make(chan struct{})
 	go vDrainAll(stop, a, b, dd, c)
-	if lateBlocked != nil {
-		<-lateBlocked
-	}
+	// A's client reads again (or has gone): whatever was held up must now complete
 	rec := 1
+	if lateBlocked != nil {
+		select {
+		case r := <-lateBlocked:
+			lateBlocked <- r
+		case <-time.After(d):
+			rec = 0
+		}
+	}
 	for _, x := range []*vSub{a, b, dd, c} {
 		if x == nil {
 			continue
@@ -809,6 +856,14 @@ func (h *vHarness) stallScenario(cid, variant string, filtered bool) {
 		x.stream.cancel()
 		select {
 		case <-x.done:
+		case <-time.After(d):
+			rec = 0
+		}
+	}
+	if lateBlocked != nil {
+		// everybody has disconnected and vDrainAll empties their channels: a Publish still stuck now would outlive the scenario
+		select {
+		case <-lateBlocked:
 		case <-time.After(d):
 			rec = 0
 		}
